@@ -1486,7 +1486,7 @@ def case_c19_readonly(rng, idx, params):
 # C19b – equivalent encodings of the same candle data
 # ---------------------------------------------------------------------------------------------
 
-ENCODINGS = ["candle", "dict", "dict_caps", "dict_iso", "list_ts_last", "list_ts_first", "list_no_ts"]
+ENCODINGS = ["candle", "dict", "dict_caps", "dict_iso", "dict_mixed", "list_ts_last", "list_ts_first", "list_no_ts"]
 
 
 def encode_chunk(rows, enc, single, stamps=None):
@@ -1524,7 +1524,14 @@ def encode_chunk(rows, enc, single, stamps=None):
             return [o, h, l, c, v, stamp]
         return [o, h, l, c, v]
 
-    items = [one(t) for t in rows]
+    if enc == "dict_mixed":   # lower-case and capitalised dicts in ONE batch: every dict is read with its own spelling
+        items = []
+        for i, t in enumerate(rows):
+            enc = "dict" if i % 2 == 0 else "dict_caps"
+            items.append(one(t))
+        enc = "dict_mixed"
+    else:
+        items = [one(t) for t in rows]
     return items[0] if (single and len(items) == 1) else items
 
 
@@ -1594,10 +1601,15 @@ def check_c19_enc(scn):
 
     rm = scn.get("remove_at")   # [step, member index]: remove_indicator after that step - the timeframe it was on stays held and fed
 
+    add = scn.get("add_at")    # [step, member]: add_indicator of one more member after that step (possibly on a timeframe not held yet)
+
     def maybe_remove(o, step):
         if rm and target == "hexital" and rm[0] == step:
             names_ = [member_name(m) for m in scn["members"]]
             o.remove_indicator(names_[rm[1] % len(names_)])
+        if add and target == "hexital" and add[0] == step:
+            o.add_indicator(build_member(add[1], cfg))
+            o.calculate()
 
     try:
         ref = _build_target(scn, mk_rows(0, init))
@@ -1678,6 +1690,12 @@ def gen_c19_enc(rng, size=30):
            "init": init, "chunks": chunks, "encs": encs}
     if target == "hexital" and len(members) >= 1 and rng.random() < 0.25:
         scn["remove_at"] = [rng.randrange(len(chunks)), rng.randrange(len(members))]
+    if target == "hexital" and with_ts and cfg.get("life") is None and rng.random() < 0.25:
+        extra = gen_spec(rng, kind=rng.choice(["SMA", "EMA", "ATR", "RSI"]))
+        extra["tf"] = (base_tf[0] + str(int(base_tf[1:]) * rng.choice([1, 2, 3]))) if rng.random() < 0.8 else None   # (the stream's own grid)
+        extra["form"] = "obj"
+        if member_name(extra) not in [member_name(m) for m in members]:
+            scn["add_at"] = [rng.randrange(len(chunks)), extra]
     if with_ts and rng.random() < 0.25:
         # stamps with a sub-second part (the same in every encoding): a string and a datetime carrying it are the same candle data
         scn["subsec"] = [rng.choice([0, 250000, 999999, 1, 500000]) for _ in range(rng.randint(1, 4))]
@@ -1693,7 +1711,9 @@ def case_c19_enc(rng, idx, params):
     bad = check_c19_enc(scn)
     viol = None
     skipped = bool(bad and "skip" in bad)
-    if bad and not skipped:
+    if bad and not skipped and "step" not in bad:
+        viol = {"scenario": scn, **bad}   # (a divergence: nothing to localise)
+    elif bad and not skipped:
         sig = bad["signature"]
         j = bad["step"]
         a, b = steps_of(scn)[j]
